@@ -150,7 +150,7 @@ func (s *DiscoveryServer) StreamDeltas(stream DeltaDiscoveryStream) error {
 
 // Compute and send the new configuration for a connection.
 func (s *DiscoveryServer) pushConnectionDelta(con *Connection, pushEv *Event) error {
-	pushRequest := pushEv.pushRequest
+	pushRequest := notOlderThanLastPush(con.proxy, pushEv.pushRequest)
 
 	if pushRequest.Forced || !model.OnlyHasConfigsOfKind(pushRequest.ConfigsUpdated, kind.Endpoints) {
 		// Update Proxy with current information.
